@@ -349,10 +349,9 @@ class Output(IOutput, Loggable):
                 return self._unpack(data)
 
             t_prev, data_prev = self.data[i - 1]
-            diff = t - t_prev
-            t_half = t_prev + diff / 2
 
-            if time < t_half:
+            # compare the exact distances (half an interval is rounded to microseconds)
+            if time - t_prev < t - time:
                 return self._unpack(data_prev)
 
             return self._unpack(data)
